@@ -6,3 +6,27 @@ chk("C01", "model_checking",
     "All add/fetch/cancel histories up to depth 6 (quick) / 7-8 (thorough) over a delta alphabet that forces ties, bucket boundaries, year wraps and far-future outliers, on 8 (quick) / 26 (thorough) queue parameterisations, executed on the real CQueue and compared step by step with a reference list; every new state is drained through the public API. Exhaustive inside these bounds, which is the right level for a data structure whose defects need a particular short interleaving.",
     "Bounded depth and delta alphabet; canonical-state merging argued in DESIGN.md C01 and cross-checked against a no-dedup run (thorough); snapshot hook trusted only for the state key, never for the verdict.",
     "DESIGN.md section 4, C01")
+
+chk("C02", "model_checking",
+    "stateless complete enumeration of event programs x start times x queue parameters x probe placements on the real Runtime, causal timestamp oracle",
+    "Every event program (forest) of up to 4 (quick) / 5 (thorough) events with delays around bucket and year boundaries, on 3 start times and 4-6 queue parameterisations, each run plainly and with an add_event probe (at now: must be accepted; 1ns, t, start before now: must panic, leave the clock and the run untouched) placed before run and inside every handler. Exhaustive over that grid; the clock/timestamp relation needs exactly this kind of universally quantified small-scope check.",
+    "Bounded program size and delay alphabet; expected timestamps computed causally from the program, independent of the tie rule.",
+    "DESIGN.md section 4, C02")
+
+chk("C03", "model_checking",
+    "explicit-state BFS of the real CQueue with a tie-order oracle + complete enumeration of tie-heavy runtime programs (differential over queue parameters) + all emission sequences of a network handler",
+    "Queue layer: the C01 state space with fetch_next required to return exactly the head of the reference list ordered by (time, current-instant first, scheduling order). Runtime layer: all programs of up to 4/5 events over a parameter-independent delay alphabet, run on 5 queue parameterisations and with unrelated future events added; logs must equal the rule and each other. Net layer: all sequences of up to 5/7 actions (direct sends, latency-channel sends, zero and non-zero self-schedules) emitted by one handler.",
+    "cqueue backend only (default features). Across different receiving modules only parameter-independence of the order is demanded.",
+    "DESIGN.md section 4, C03")
+
+chk("C10", "model_checking",
+    "stateless complete enumeration of event programs x step schedules (count cuts, time cuts, paused external adds) on the real Runtime; differential against the real uninterrupted run plus a pending-set shadow",
+    "All programs of up to 3/4 events x all schedules of up to 2/3 steps over dispatch_n_events(0..3), dispatch_events_until(every timestamp and +-1ns) and five placements of an external add while paused. Checks exact log equality with the uninterrupted run (no external adds), exact per-step counts/cut positions, paused sim_time / remaining / dispatched counters, acceptance of every paused add at or after the reported time, and exactly-once time-ordered delivery with external adds.",
+    "Relative order of an externally added event and same-instant pending events is left to C03. Bounded program and schedule length.",
+    "DESIGN.md section 4, C10")
+
+chk("C11", "model_checking",
+    "stateless complete enumeration of event programs x limit trees on the real Runtime against an independent limit evaluator applied to the real unlimited log",
+    "All programs of up to 4/5 events x None, every EventCount around the total, every SimTime at/around every timestamp, And/Or of every pair in both operand orders, builder chains max_itr/max_time in both orders, and every depth-2 tree for programs of up to 3/4 events. Checks dispatched prefix, remaining events with timestamps, end time and event_count.",
+    "The time-ordered sequence is taken from the real unlimited run (tie-rule independent).",
+    "DESIGN.md section 4, C11")
